@@ -49,3 +49,67 @@ func H_C16_Depth() {
 	}
 	vx.Reach("C16/depth/end")
 }
+
+// H_C17_Fold: the three specialised folding functions agree with bytes.EqualFold under their documented
+// preconditions (s all ASCII; asciiEqualFold: s has no k/K/s/S; simpleLetterEqualFold: s letters only, no k/s).
+func H_C17_Fold() {
+	ns, nt := vx.Param("ns"), vx.Param("nt")
+	s := vx.Bytes("s", ns)
+	t := vx.Bytes("t", nt)
+	for _, b := range s {
+		vx.Assume(b < 0x80)
+	}
+	which := vx.Choose("fn", 3)
+	special, nonLetter := false, false
+	for _, b := range s {
+		upper := b & caseMask
+		if upper < 'A' || upper > 'Z' {
+			nonLetter = true
+		} else if upper == 'K' || upper == 'S' {
+			special = true
+		}
+	}
+	want := bytesEqualFoldRef(s, t)
+	switch which {
+	case 0:
+		vx.Assert(equalFoldRight(s, t) == want, "C17/equalFoldRight-is-EqualFold")
+	case 1:
+		if special {
+			return
+		}
+		vx.Assert(asciiEqualFold(s, t) == want, "C17/asciiEqualFold-is-EqualFold")
+	case 2:
+		if special || nonLetter {
+			return
+		}
+		vx.Assert(simpleLetterEqualFold(s, t) == want, "C17/simpleLetterEqualFold-is-EqualFold")
+	}
+	vx.Reach("C17/fold/end")
+}
+
+// bytesEqualFoldRef: simple-folding equality of an ASCII string s with arbitrary bytes t, written from the Unicode
+// case-folding table for ASCII letters: letters fold to the other case; k/K also to U+212A (E2 84 AA); s/S also to
+// U+017F (C5 BF). Everything else must match exactly.
+func bytesEqualFoldRef(s, t []byte) bool {
+	j := 0
+	for _, c := range s {
+		if j >= len(t) {
+			return false
+		}
+		up := c & caseMask
+		isLetter := up >= 'A' && up <= 'Z'
+		switch {
+		case t[j] == c:
+			j++
+		case isLetter && t[j]&caseMask == up && t[j] < 0x80:
+			j++
+		case up == 'K' && j+2 < len(t)+0 && t[j] == 0xE2 && t[j+1] == 0x84 && t[j+2] == 0xAA:
+			j += 3
+		case up == 'S' && j+1 < len(t) && t[j] == 0xC5 && t[j+1] == 0xBF:
+			j += 2
+		default:
+			return false
+		}
+	}
+	return j == len(t)
+}
